@@ -131,6 +131,14 @@ def cg_cases(ctx, rnd, tier):
         small = [a for a in args if max(a[0], a[2]) <= 3]
         rest = [a for a in args if max(a[0], a[2]) > 3]
         args = rnd.sample(small, min(500, len(small))) + rnd.sample(rest, min(400, len(rest)))
+    # tuples with M != m1 + m2 are inside the property's quantifier (all (j1,m1,j2,m2,J,M)): the exact value is 0
+    off = []
+    for a in rnd.sample(args, min(len(args), 300 if tier == "quick" else 3000)):
+        j1, m1, j2, m2, J, M = a
+        for M2 in range(-J, J + 1, 2):
+            if M2 != M:
+                off.append((j1, m1, j2, m2, J, M2))
+    args = args + rnd.sample(off, min(len(off), 400 if tier == "quick" else 6000))
     cases = []
     # sympy path (cg_coef) - values grouped per (j1, j2)
     groups = {}
